@@ -21,3 +21,5 @@ pub use file_upload_session::FileUploadSession;
 pub use pointer_file::PointerFile;
 #[cfg(xet_verif)]
 pub use pointer_file::{is_xet_pointer_file as verif_is_xet_pointer_file, POINTER_FILE_LIMIT as VERIF_POINTER_FILE_LIMIT};
+#[cfg(xet_verif)]
+pub use constants::MDB_SHARD_LOCAL_CACHE_EXPIRATION_SECS as VERIF_MDB_SHARD_LOCAL_CACHE_EXPIRATION_SECS;
